@@ -30,6 +30,7 @@ site: http://bugseng.com/products/ppl/ . */
 #include "Constraint_System_defs.hh"
 #include "C_Polyhedron_defs.hh"
 #include "NNC_Polyhedron_defs.hh"
+#include "Variables_Set_defs.hh"
 
 #include <stdexcept>
 
@@ -172,6 +173,31 @@ template <>
 void
 assign_all_inequalities_approximation(const C_Polyhedron& ph,
                                       Constraint_System& cs);
+
+/*! \brief
+  Assigns to \p cs the all-inequalities approximation of the states
+  from which the loop body can execute: \p pset_before intersected with
+  the projection of \p pset_after onto the unprimed variables.
+
+  The Podelski-Rybalchenko two-system encoding derives the lower bound
+  of the ranking function from the "before" system only: it is complete
+  only if that system entails every constraint on the unprimed variables
+  entailed by the "after" system.
+*/
+template <typename PSET>
+inline void
+assign_all_inequalities_approximation_of_guard(const PSET& pset_before,
+                                               const PSET& pset_after,
+                                               Constraint_System& cs) {
+  const dimension_type n = pset_before.space_dimension();
+  PSET guard(pset_after);
+  if (n > 0) {
+    // Project away x'_1, ..., x'_n: x_1, ..., x_n move onto 0, ..., n-1.
+    guard.remove_space_dimensions(Variables_Set(Variable(0), Variable(n-1)));
+  }
+  guard.intersection_assign(pset_before);
+  assign_all_inequalities_approximation(guard, cs);
+}
 
 bool
 termination_test_MS(const Constraint_System& cs);
@@ -448,7 +474,8 @@ termination_test_PR_2(const PSET& pset_before, const PSET& pset_after) {
   using namespace Implementation::Termination;
   Constraint_System cs_before;
   Constraint_System cs_after;
-  assign_all_inequalities_approximation(pset_before, cs_before);
+  assign_all_inequalities_approximation_of_guard(pset_before, pset_after,
+                                                 cs_before);
   assign_all_inequalities_approximation(pset_after, cs_after);
   return termination_test_PR(cs_before, cs_after);
 }
@@ -491,7 +518,8 @@ one_affine_ranking_function_PR_2(const PSET& pset_before,
   using namespace Implementation::Termination;
   Constraint_System cs_before;
   Constraint_System cs_after;
-  assign_all_inequalities_approximation(pset_before, cs_before);
+  assign_all_inequalities_approximation_of_guard(pset_before, pset_after,
+                                                 cs_before);
   assign_all_inequalities_approximation(pset_after, cs_after);
   return one_affine_ranking_function_PR(cs_before, cs_after, mu);
 }
@@ -539,7 +567,8 @@ all_affine_ranking_functions_PR_2(const PSET& pset_before,
   using namespace Implementation::Termination;
   Constraint_System cs_before;
   Constraint_System cs_after;
-  assign_all_inequalities_approximation(pset_before, cs_before);
+  assign_all_inequalities_approximation_of_guard(pset_before, pset_after,
+                                                 cs_before);
   assign_all_inequalities_approximation(pset_after, cs_after);
   all_affine_ranking_functions_PR(cs_before, cs_after, mu_space);
 }
